@@ -670,6 +670,8 @@ def rule_view(h: int, w: int, problem: List[List[int]]) -> Callable[[Sequence[An
                     return False
         return True
 
+    # a number is at most the number of other cells in its row and column
+    ok.domains = [list(range(0, h + w - 1))] * (h * w) + [[False, True]] * (h * w)  # type: ignore[attr-defined]
     return ok
 
 
@@ -1370,6 +1372,8 @@ def instances(tier: str) -> List[Tuple[str, tuple, dict, Callable[..., Callable[
           ("lits", (2, 5, [[(0, 0), (0, 1), (0, 2), (0, 3), (1, 0)], [(0, 4), (1, 1), (1, 2), (1, 3), (1, 4)]]), {}, rule_lits),
           # a plus-shaped room: a T whose centre has all four neighbours in its own room
           ("lits", (3, 4, [[(0, 1), (1, 0), (1, 1), (1, 2), (2, 1)], [(0, 0), (0, 2), (0, 3), (1, 3), (2, 0), (2, 2), (2, 3)]]), {}, rule_lits)]
+    # a room long enough for three cells in a row plus a separate domino (five cells with three adjacent pairs are not a tetromino)
+    I += [("lits", (1, 6, [[(0, x) for x in range(6)]]), {}, rule_lits), ("lits", (6, 1, [[(y, 0) for y in range(6)]]), {}, rule_lits)]
     # building (skyscrapers), order 3
     I += [("building", (3, [0, 0, 0], [0, 0, 0], [0, 0, 0], [0, 0, 0]), {}, rule_building),
           ("building", (3, [1, 0, 2], [0, 3, 0], [2, 0, 0], [0, 0, 1]), {}, rule_building),
@@ -1385,7 +1389,10 @@ def instances(tier: str) -> List[Tuple[str, tuple, dict, Callable[..., Callable[
           ("building", (3, [0, 0, 0], [0, 0, 0], [0, 1, 0], [0, 0, 0]), {}, rule_building)]
     # doppelblock, order 3 (numbers 1..1)
     I += [("doppelblock", (3, [-1, -1, -1], [-1, -1, -1]), {}, rule_doppelblock),
-          ("doppelblock", (3, [1, -1, 0], [-1, 0, 1]), {}, rule_doppelblock)]
+          ("doppelblock", (3, [1, -1, 0], [-1, 0, 1]), {}, rule_doppelblock),
+          # a lone clue 0 (the two black cells side by side) in a row / in a column
+          ("doppelblock", (3, [0, -1, -1], [-1, -1, -1]), {}, rule_doppelblock),
+          ("doppelblock", (3, [-1, -1, -1], [-1, 0, -1]), {}, rule_doppelblock)]
     # compass
     I += [("compass", (2, 3, [(0, 0, -1, -1, 1, 1), (1, 2, 1, -1, -1, -1)]), {}, rule_compass),
           ("compass", (3, 2, [(0, 0, 0, 0, -1, -1), (2, 1, -1, 1, 0, -1)]), {}, rule_compass),
@@ -1394,31 +1401,63 @@ def instances(tier: str) -> List[Tuple[str, tuple, dict, Callable[..., Callable[
           ("compass", (2, 3, [(1, 0, 1, -1, -1, -1), (0, 2, -1, -1, -1, -1)]), {}, rule_compass),
           ("compass", (2, 3, [(0, 1, -1, 0, -1, -1), (1, 0, -1, -1, -1, -1)]), {}, rule_compass),
           ("compass", (2, 3, [(0, 1, -1, -1, 0, -1), (1, 2, -1, -1, -1, -1)]), {}, rule_compass),
-          ("compass", (3, 2, [(1, 0, 0, -1, -1, 0), (2, 1, -1, -1, -1, -1)]), {}, rule_compass)]
+          ("compass", (3, 2, [(1, 0, 0, -1, -1, 0), (2, 1, -1, -1, -1, -1)]), {}, rule_compass),
+          ("compass", (2, 3, [(0, 1, -1, -1, -1, 0), (1, 0, -1, -1, -1, -1)]), {}, rule_compass)]   # a lone zero to the right
     # geradeweg
     I += [("geradeweg", (3, 3, [[0, 0, 0], [0, 0, 0], [0, 0, 2]]), {}, rule_geradeweg),
           ("geradeweg", (3, 3, [[1, 0, 0], [0, 0, 0], [0, 2, 0]]), {}, rule_geradeweg),
-          ("geradeweg", (2, 3, [[2, 0, 0], [0, 0, 1]]), {}, rule_geradeweg)]
+          ("geradeweg", (2, 3, [[2, 0, 0], [0, 0, 1]]), {}, rule_geradeweg),
+          # a clue in the middle of the board: a run may leave it on one side only, in any of the four directions
+          ("geradeweg", (3, 3, [[0, 0, 0], [0, 1, 0], [0, 0, 0]]), {}, rule_geradeweg),
+          ("geradeweg", (3, 3, [[0, 0, 0], [0, 2, 0], [0, 0, 0]]), {}, rule_geradeweg)]
     # view (integer numbers + has-number flags)
     I += [("view", (2, 2, [[-1, -1], [-1, -1]]), {}, rule_view),
           ("view", (1, 3, [[-1, -1, 1]]), {}, rule_view),
-          ("view", (2, 2, [[2, -1], [-1, -1]]), {}, rule_view)]
+          ("view", (2, 2, [[2, -1], [-1, -1]]), {}, rule_view),
+          # one-line boards in both orientations (the sight counters run along one axis only), a clue that is met / cannot be met
+          ("view", (1, 3, [[-1, -1, -1]]), {}, rule_view),
+          ("view", (3, 1, [[-1], [-1], [-1]]), {}, rule_view),
+          ("view", (1, 4, [[-1, -1, 2, -1]]), {}, rule_view),
+          ("view", (4, 1, [[-1], [2], [-1], [-1]]), {}, rule_view)]
     # fivecells
-    I += [("fivecells", (1, 5, [[-1, 3, -1, -1, -1]]), {}, rule_fivecells),
-          ("fivecells", (1, 10, [[-1, -1, -1, -1, 3, -1, -1, -1, -1, 2]]), {}, rule_fivecells),   # two pentominoes in a row
-          ("fivecells", (2, 3, [[-1, -1, -1], [-1, 1, -2]]), {}, rule_fivecells)]
+    I += [("fivecells", (1, 5, [[-1, 2, -1, -1, -1]]), {}, rule_fivecells),
+          ("fivecells", (1, 5, [[-1, 3, -1, -1, -1]]), {}, rule_fivecells),                         # a clue no division can meet
+          ("fivecells", (1, 10, [[-1, -1, -1, -1, 3, -1, -1, -1, -1, 3]]), {}, rule_fivecells),   # two pentominoes in a row
+          ("fivecells", (2, 3, [[-1, -1, -1], [-1, 2, -2]]), {}, rule_fivecells),
+          ("fivecells", (3, 2, [[-1, -1], [-1, 3], [-2, -1]]), {}, rule_fivecells),
+          ("fivecells", (2, 5, [[-1, 0, -1, -1, -1], [-1, -1, -1, -1, -1]]), {}, rule_fivecells)]  # a clue below the number of board edges at that cell
+    if deep:
+        # 2x5 / 5x2: five ways to cut the board into two pentominoes; clues on the first and the last row and column (about a minute each)
+        I += [("fivecells", (2, 5, [[-1] * 5, [-1] * 5]), {"__budget__": 400.0}, rule_fivecells),
+              ("fivecells", (2, 5, [[2, -1, -1, -1, -1], [-1, -1, -1, -1, 2]]), {"__budget__": 400.0}, rule_fivecells),
+              ("fivecells", (5, 2, [[-1, -1], [-1, -1], [-1, -1], [-1, -1], [2, -1]]), {"__budget__": 400.0}, rule_fivecells)]
     # nurimisaki
     I += [("nurimisaki", (3, 3, [[2, -1, -1], [-1, -1, -1], [-1, -1, 0]]), {}, rule_nurimisaki),
           ("nurimisaki", (2, 4, [[-1, -1, -1, 3], [0, -1, -1, -1]]), {}, rule_nurimisaki),
           ("nurimisaki", (3, 4, [[-1, -1, -1, -1], [-1, -1, -1, -1], [3, -1, -1, -1]]), {}, rule_nurimisaki),
           # a cape whose line runs down to a black cell in the bottom row (needs three rows and room beside it)
           ("nurimisaki", (3, 5, [[2, -1, -1, -1, -1], [-1, -1, -1, -1, -1], [-1, -1, -1, -1, -1]]), {}, rule_nurimisaki)]
+    # a cape in the middle of each edge, its line reaching the opposite edge exactly (3) or stopped by a black cell / running along the edge (2)
+    for (cy, cx) in ((2, 1), (0, 1), (1, 2), (1, 0)):
+        for n_ in (3, 2):
+            g_ = [[-1] * 3 for _ in range(3)]
+            g_[cy][cx] = n_
+            I.append(("nurimisaki", (3, 3, g_), {}, rule_nurimisaki))
     # castle wall (cells are lattice points)
     I += [("castle_wall", (3, 3, [["..", "..", ".."], ["..", ">1", ".."], ["..", "..", ".."]], [[None] * 3, [None, True, None], [None] * 3]), {}, rule_castle_wall),
           ("castle_wall", (3, 3, [["v1", "..", ".."], ["..", "..", ".."], ["..", "..", ".."]], [[False, None, None], [None] * 3, [None] * 3]), {}, rule_castle_wall),
           ("castle_wall", (3, 3, [["..", "..", ".."], ["..", "..", ".."], ["..", "..", "<1"]], [[None] * 3, [None] * 3, [None, None, None]]), {}, rule_castle_wall),
           ("castle_wall", (3, 3, [["..", "..", ">1"], ["..", "..", ".."], ["..", "..", ".."]], [[None] * 3, [None] * 3, [None] * 3]), {}, rule_castle_wall),
-          ("castle_wall", (2, 4, [["..", "..", "..", ".."], ["^0", "..", "..", ".."]], [[None] * 4, [False, None, None, None]]), {}, rule_castle_wall)]
+          ("castle_wall", (2, 4, [["..", "..", "..", ".."], ["^0", "..", "..", ".."]], [[None] * 4, [False, None, None, None]]), {}, rule_castle_wall),
+          # a clue cell without an arrow ("o0") in the middle of the board: inside (only the ring encloses it) / outside (only no line at all)
+          ("castle_wall", (3, 3, [["..", "..", ".."], ["..", "o0", ".."], ["..", "..", ".."]], [[None] * 3, [None, True, None], [None] * 3]), {}, rule_castle_wall),
+          ("castle_wall", (3, 3, [["..", "..", ".."], ["..", "o0", ".."], ["..", "..", ".."]], [[None] * 3, [None, False, None], [None] * 3]), {}, rule_castle_wall),
+          ("castle_wall", (3, 3, [["o0", "..", ".."], ["..", "..", ".."], ["..", "..", ".."]], [[False, None, None], [None] * 3, [None] * 3]), {}, rule_castle_wall),
+          ("castle_wall", (3, 3, [["..", "..", ".."], ["..", "..", ".."], ["..", "o0", ".."]], [[None] * 3, [None] * 3, [None, True, None]]), {}, rule_castle_wall)]
+    if deep:
+        # a clue point in the third row of the lattice: its inside flag is derived through two rows of faces
+        I += [("castle_wall", (4, 3, [[".."] * 3, [".."] * 3, ["..", "o0", ".."], [".."] * 3], [[None] * 3, [None] * 3, [None, True, None], [None] * 3]), {"__budget__": 400.0}, rule_castle_wall),
+              ("castle_wall", (4, 3, [[".."] * 3, [".."] * 3, ["..", "o0", ".."], [".."] * 3], [[None] * 3, [None] * 3, [None, False, None], [None] * 3]), {"__budget__": 400.0}, rule_castle_wall)]
     # shakashaka (integer answers 0..4)
     I += [("shakashaka", (2, 2, [[None, None], [None, None]]), {}, rule_shakashaka),
           ("shakashaka", (2, 3, [[None, None, None], [None, None, -1]]), {}, rule_shakashaka),
@@ -1599,6 +1638,7 @@ def _job(args) -> Tuple[str, str, int]:
     name, a, kw, rule = instances(tier)[idx]
     kw = dict(kw)
     sound_only = bool(kw.pop("__sound_only__", False))
+    budget_override = kw.pop("__budget__", None)
     fn = f"solve_{name}"
     label = f"{fn}{_brief(a)}{' ' + str(kw) if kw else ''}"
     try:
@@ -1621,7 +1661,7 @@ def _job(args) -> Tuple[str, str, int]:
             vs += part
         ids = [v.attrs["id"] for v in vs]
         posted = _Posted(w.solvers[0])
-        ext = Extender(posted, (100.0 if tier != "quick" else 40.0) if native else (30.0 if tier != "quick" else 5.0))
+        ext = Extender(posted, (budget_override or (100.0 if tier != "quick" else 40.0)) if native else (30.0 if tier != "quick" else 5.0))
         if getattr(rule, "custom", False):
             return rule(a, kw, ids, posted, ext, label)
         ok = rule(*a, **kw)
